@@ -71,6 +71,10 @@ def run(chk, repo, tier):
                 its = [a for a in nf.value_atoms(body) if a[0] == 'iter']
                 good = seq in (nf.attr(plane, 'pixelscale'), nf.attr(plane, '_pixelscale')) and len(its) == 1 and \
                     body == nf.index(seq, Poly.atom(its[0])) / scale
+            if not good and v == NONE and any(pol and fmt(c) in (f'is({fmt(nf.attr(plane, a_))}, (None))' for a_ in ('pixelscale', '_pixelscale'))
+                                               for c, pol, _ in p.conds):
+                n_ps -= 1
+                good = True         # a plane without a pixel scale keeps none
             oka = oka and good
         if 'amplitude' in last:
             n_amp += 1
